@@ -206,6 +206,7 @@ impl<R: Read> JsonParserUtils for Reader<R> {
             self.parse_to_double(&str)
         } else if negative {
             match str.parse::<i64>() {
+                Ok(0) => Ok(JsonValue::Number(NumberValue::Positive(0))),
                 Ok(i) => Ok(JsonValue::Number(NumberValue::Negative(i))),
                 Err(e) => {
                     let kind = e.kind();
